@@ -131,9 +131,25 @@ def run(ctx: Ctx) -> None:
 
     # ------------------------------------------------------------------ R4 voice assistant
     sva = client.methods["subscribe_voice_assistant"]
-    started = ctx.repo.func("client", "APIClient.subscribe_voice_assistant._started")
+    # the completion callback of the start task, located by role: what is registered with add_done_callback inside
+    # the subscription (a nested closure today; a private method is the same thing)
+    res_ = resolver(ctx) if "resolver" in globals() else None
+    if res_ is None:
+        from ..closed import resolver as _resolver
+
+        res_ = _resolver(ctx)
+    started = None
+    for fnn in ctx.repo.funcs_in("client"):
+        if fnn.qualname.startswith("APIClient.subscribe_voice_assistant"):
+            for c in own_nodes(fnn.node):
+                if isinstance(c, ast.Call) and isinstance(c.func, ast.Attribute) and c.func.attr == "add_done_callback" and c.args and "start_task" in norm(c.func.value):
+                    cv = res_._callable_value(fnn, c.args[0])
+                    if cv is not None and len(cv.funcs) == 1:
+                        started = cv.funcs[0]
+    ctx.require(started is not None, "completion callback of the voice-assistant start task not found (add_done_callback on start_task)")
+    started_name = started.name
     gs = cfg_of(ctx, started)
-    fp = started.param_names()[0]
+    fp = [a for a in started.param_names() if a != "self"][0]
     port_var = None
     for n in own_nodes(started.node):
         if isinstance(n, ast.Assign) and norm(n.value) == f"{fp}.result()":
@@ -185,7 +201,7 @@ def run(ctx: Ctx) -> None:
 
     hs = [n for n in gr.reachable() if any(isinstance(x, ast.Call) and norm(x.func) == "handle_start" for x in walk_own(n.ast) if n.ast is not None)]
     hp = [n for n in gr.reachable() if any(isinstance(x, ast.Call) and norm(x.func) == "handle_stop" for x in walk_own(n.ast) if n.ast is not None)]
-    dc = [n for n in gr.reachable() if any(isinstance(c.func, ast.Attribute) and c.func.attr == "add_done_callback" and [norm(a) for a in c.args] == ["_started"] for c in node_calls(n))]
+    dc = [n for n in gr.reachable() if any(isinstance(c.func, ast.Attribute) and c.func.attr == "add_done_callback" and [norm(a).split(".")[-1] for a in c.args] == [started_name] for c in node_calls(n))]
     t1 = truth_table(gr, ["start"], clr, hs)
     t2 = truth_table(gr, ["start"], clr, hp)
     t3 = truth_table(gr, ["start"], clr, dc)
